@@ -41,10 +41,41 @@ ModelRef(kind, s) ==
   \o (IF Dim(kind) >= 2 THEN FlattenSeq([g \in DOMAIN CodeLF(kind) |-> [r \in 1..s.f |-> Bary(kind, CodeLF(kind)[g])]])
       ELSE <<>>)
   \o [r \in 1..s.i |-> Bary(kind, [j \in 1..NNodes(kind) |-> j])]
+\* ---- periodic tensor meshes (Mesh*1DG.init_tensor(periodic=...)): identified topology t, per-cell corner
+\* coordinates pc, period per coordinate (0 = not periodic); three cells across a periodic direction
+PerLine(n) ==
+  [ kind |-> "line", nv |-> n, p |-> [v \in 1..n |-> <<0>>],
+    t  |-> [k \in 1..n |-> <<k, (k % n) + 1>>],
+    pc |-> [k \in 1..n |-> << <<k - 1>>, <<k>> >>], period |-> <<n>> ]
+PerQuad(nx, ny, px, py) ==
+  LET W == IF px THEN nx ELSE nx + 1
+      H == IF py THEN ny ELSE ny + 1
+      vid(i, j) == (i % W) + W * (j % H) + 1
+      cellij(k) == <<(k - 1) % nx, (k - 1) \div nx>>
+  IN [ kind |-> "quad", nv |-> W * H, p |-> [v \in 1..(W * H) |-> <<0, 0>>],
+       t  |-> [k \in 1..(nx * ny) |-> LET i == cellij(k)[1] j == cellij(k)[2] IN
+                  <<vid(i, j), vid(i + 1, j), vid(i + 1, j + 1), vid(i, j + 1)>>],
+       pc |-> [k \in 1..(nx * ny) |-> LET i == cellij(k)[1] j == cellij(k)[2] IN
+                  << <<i, j>>, <<i + 1, j>>, <<i + 1, j + 1>>, <<i, j + 1>> >>],
+       period |-> <<IF px THEN nx ELSE 0, IF py THEN ny ELSE 0>> ]
+\* the same cells split by the diagonal (i,j)-(i+1,j+1)
+PerTri(nx, ny, px, py) ==
+  LET q == PerQuad(nx, ny, px, py) IN
+  [ kind |-> "tri", nv |-> q.nv, p |-> q.p, period |-> q.period,
+    t  |-> FlattenSeq([k \in DOMAIN q.t |-> << <<q.t[k][1], q.t[k][2], q.t[k][3]>>, <<q.t[k][1], q.t[k][3], q.t[k][4]>> >>]),
+    pc |-> FlattenSeq([k \in DOMAIN q.t |-> << <<q.pc[k][1], q.pc[k][2], q.pc[k][3]>>,
+                                               <<q.pc[k][1], q.pc[k][3], q.pc[k][4]>> >>]) ]
+PeriodicMeshes ==
+  { PerLine(3), PerQuad(3, 1, TRUE, FALSE), PerQuad(2, 3, FALSE, TRUE), PerTri(3, 1, TRUE, FALSE) }
+  \cup (IF Thorough THEN {PerQuad(3, 3, TRUE, TRUE), PerTri(3, 3, TRUE, TRUE), PerLine(4)} ELSE {})
+
 WithLocs(d, mesh) ==
-  LET pre == [d EXCEPT !.loc = [mode |-> "exact", L |-> 12, sc |-> 1, ref |-> ModelRef(d.kind, d.sig), p |-> mesh.p,
-                                lf |-> CodeLF(d.kind), le |-> CodeLE(d.kind), glob |-> <<>>]]
-  IN [pre EXCEPT !.loc.glob = DofLocsImpl(pre)]
+  LET loc0 == [mode |-> "exact", L |-> 12, sc |-> 1, ref |-> ModelRef(d.kind, d.sig), p |-> mesh.p,
+               lf |-> CodeLF(d.kind), le |-> CodeLE(d.kind), glob |-> <<>>]
+      isper == "pc" \in DOMAIN mesh
+      pre == [d EXCEPT !.loc = IF isper THEN loc0 @@ [pc |-> mesh.pc] ELSE loc0]
+      full == [pre EXCEPT !.loc = [k \in DOMAIN pre.loc |-> IF k = "glob" THEN DofLocsImpl(pre) ELSE pre.loc[k]]]
+  IN IF isper THEN full @@ [per |-> [pc |-> mesh.pc, period |-> mesh.period]] ELSE full
 
 \* dimensions the numbering code may read for an element on a mesh of this kind: the reference-cell dimension
 \* (current code).  MC_C04_olddim.cfg overrides it by DimsReadOld: element.dim of a vector wrapper = its number of
@@ -55,7 +86,7 @@ DimsReadOld(kind) == 1..4
 VARIABLES m, c, sig, failed
 vars == <<m, c, sig, failed>>
 
-Init == m \in Meshes /\ c = <<>> /\ sig = <<>> /\ failed = {}
+Init == m \in Meshes \cup PeriodicMeshes /\ c = <<>> /\ sig = <<>> /\ failed = {}
 \* step 1: derived connectivity as the code computes it (MeshTopology!ConnImpl)
 Connect == /\ c = <<>>
            /\ c' = ConnImpl(m.kind, m.nv, m.t, CodeLF(m.kind), CodeLE(m.kind), CodeLFE(m.kind))
